@@ -364,7 +364,22 @@ POSITIONS = {
 }
 
 
+def _continuation_splits():
+  """GOOD split after every token boundary by backslash-newline, the rest indented by k blanks for k around the
+  column where the first part ended (a check that compares columns but not lines would accept k == that column)."""
+  out = {}
+  bounds = [i for i, ch in enumerate(GOOD) if ch in '/.'] + [i + 1 for i, ch in enumerate(GOOD) if ch in '/.']
+  for i in sorted(set(bounds)):
+    left, right = GOOD[:i], GOOD[i:]
+    for dk in (-1, 0, 1):
+      k = len(left) + dk
+      if k >= 0:
+        out['cont_split@%d%+d' % (i, dk)] = left + '\\\n' + ' ' * k + right
+  return out
+
+
 def malformed_cases():
+  MALFORMED.update(_continuation_splits())
   for mname, bad in MALFORMED.items():
     for pname, fn in POSITIONS.items():
       yield ['malformed', mname, pname]
@@ -378,6 +393,8 @@ def malformed_cases():
 def check_malformed(case, res):
   kind, mname, pname = case[:3]
   if kind == 'malformed':
+    if mname not in MALFORMED:
+      MALFORMED.update(_continuation_splits())
     bad = MALFORMED[mname]
     text = POSITIONS[pname](bad)
     good_text = POSITIONS[pname](GOOD)
@@ -392,8 +409,8 @@ def check_malformed(case, res):
         return  # the malformation fell outside the name
     if pname == 'block_header':
       hdr = bad[:-2] if bad.endswith('.x') else bad.rsplit('.', 1)[0]
-      if hdr.strip() == GOOD[:-2]:
-        return  # the malformation fell outside the name (e.g. a blank before the colon)
+      if hdr.strip() == GOOD[:-2] or hdr.rstrip().rstrip('\\').strip() == GOOD[:-2]:
+        return  # the malformation fell outside the name (e.g. a blank / a continuation before the colon)
       text = hdr + ':\n  x = 1'
   else:
     text = 'c03.f.y = ' + mname
